@@ -7,6 +7,7 @@ that reach the same value (and near misses), observed with ==, cmp, Hash, export
 Grammar of the script tokens: ocaml/ops_hist.ml."""
 from genlib import *
 
+STATS = {"pair_same": 0, "pair_diff": 0, "panic": 0}
 THEOREMS = ["C04_step_spec", "C04_step_canon", "C04_reachable_canon", "C04_indistinguishable"]
 RULE = "a history is non-trivial if it has at least 3 operations or reaches a value of >= 2 digits"
 
@@ -105,6 +106,20 @@ def ctor_i(rng, v):
     return "fromu:" + pad_digits(rng, m)
 
 
+def iroot(n, x):
+    """floor n-th root of x >= 0"""
+    if x < 2:
+        return x
+    lo, hi = 1, 1 << (x.bit_length() // n + 1)
+    while lo < hi:
+        mid = (lo + hi + 1) // 2
+        if mid ** n <= x:
+            lo = mid
+        else:
+            hi = mid - 1
+    return lo
+
+
 def tquot(a, b):
     q = abs(a) // abs(b)
     return q if (a < 0) == (b < 0) else -q
@@ -168,7 +183,11 @@ class Sim:
         big = v.bit_length() > MAXBITS
         k = r.random()
         if allow_panic:
-            c = r.choice(["subunder", "div0", "rem0", "negshl", "negshr", "divs0", "divfloor0"])
+            c = r.choice(["subunder", "div0", "rem0", "negshl", "negshr", "divs0", "divfloor0", "root0", "imag"])
+            if c == "root0":
+                return self.push("nthroot:0", None)
+            if c == "imag" and v < 0:
+                return self.push(r.choice(["sqrt", "nthroot:2", "nthroot:4"]), None)
             if c == "subunder" and u:
                 return self.push("sub:" + self.Y(v + 1 + r.getrandbits(r.choice([1, 64, 70]))), None)
             if c == "div0":
@@ -182,6 +201,47 @@ class Sim:
             if c == "divs0" and u:
                 return self.push("%s:%s:0" % (r.choice(["divs", "rems"]), r.choice(["32", "64", "128"])), None)
             return self.push("%s:%s" % (r.choice(["divfloor", "modfloor", "diveuclid", "remeuclid", "divceil"]), "u:0" if u else "i:+:0"), None)
+        if r.random() < 0.13:      # products, powers, roots, gcd / lcm
+            import math
+            c = r.choice(["mul", "mul", "muldiv", "muls", "pow", "sqrt", "cbrt", "nthroot", "gcd", "lcm"])
+            small = abs(self.rnd(r.choice([0, 1, 1, 2, 3])))
+            if not u and r.random() < 0.5:
+                small = -small
+            if c == "mul":
+                y = r.choice([0, 1, 2]) if big else r.choice([small, small, 0, 1, 1 << 64, self.rnd()])
+                if u:
+                    y = abs(y)
+                return self.push("mul:" + self.Y(y), v * y)
+            if c == "muldiv" and not big and small != 0:          # x * y / y
+                if u:
+                    small = abs(small)
+                self.push("mul:" + self.Y(small), v * small)
+                return self.push("div:" + self.Y(small), v)
+            if c == "muls" and u and not big:
+                w = r.choice([32, 64, 128])
+                sc = r.choice([0, 1, 2, 1 << (w - 1), (1 << w) - 1, r.getrandbits(w)])
+                return self.push("muls:%d:%d" % (w, sc), v * sc)
+            if c == "pow" and abs(v).bit_length() < 1500:
+                e = r.choice([0, 1, 2, 3, 5])
+                return self.push("pow:%d" % e, v ** e)
+            if c == "sqrt" and v >= 0:
+                return self.push("sqrt", math.isqrt(v))
+            if c == "cbrt":
+                return self.push("cbrt", sgn(v) * iroot(3, abs(v)))
+            if c == "nthroot":
+                n = r.choice([1, 2, 3, 4, 7, 64, 1000])
+                if v < 0 and n % 2 == 0:
+                    n += 1
+                return self.push("nthroot:%d" % n, sgn(v) * iroot(n, abs(v)))
+            if c == "gcd":
+                y = r.choice([v * r.choice([1, 2, 3]), small, 0, self.rnd(), v // r.choice([1, 2, 3, 1 << 64]) if u else -v])
+                if u:
+                    y = abs(y)
+                return self.push("gcd:" + self.Y(y), math.gcd(v, y))
+            if c == "lcm" and not big:
+                y = abs(small) if u else small
+                g = math.gcd(v, y)
+                return self.push("lcm:" + self.Y(y), 0 if v == 0 or y == 0 else abs(v * y) // g)
         if k < 0.10:       # add
             y = r.choice([self.rnd(), (1 << (64 * ((abs(v).bit_length() + 63) // 64))) - abs(v) + r.choice([0, 0, 1]), 1, 0])
             if not u and r.random() < 0.5:
@@ -354,9 +414,19 @@ def history(rng, kind, lens, maxlen=40):
 def detour(rng, s):
     """operations that leave the value unchanged"""
     r, v, u = rng, s.v, s.kind == "u"
-    c = r.choice(["addsub", "xorxor", "shlshr", "shl_add_shr", "orand", "zero_add", "clone", "negneg", "notnot", "setclr", "divexact", "assign"])
+    c = r.choice(["muldiv", "mulsdivs", "powroot", "addsub", "xorxor", "shlshr", "shl_add_shr", "orand", "zero_add", "clone", "negneg", "notnot", "setclr", "divexact", "assign"])
     t = abs(s.rnd(r.choice([1, 2, 3]))) or 1
-    if c == "addsub":
+    if c == "muldiv":
+        if not u and r.random() < 0.5:
+            t = -t
+        s.push("mul:" + s.Y(t), v * t); s.push("div:" + s.Y(t), v)
+    elif c == "mulsdivs" and u:
+        w = r.choice([32, 64, 128]); sc = r.getrandbits(w) or 1
+        s.push("muls:%d:%d" % (w, sc), v * sc); s.push("divs:%d:%d" % (w, sc), v)
+    elif c == "powroot" and abs(v).bit_length() < 700 and (u or v >= 0):
+        e = r.choice([2, 3, 5])
+        s.push("pow:%d" % e, v ** e); s.push({2: "sqrt", 3: "cbrt", 5: "nthroot:5"}[e], v)
+    elif c == "addsub":
         s.push("add:" + s.Y(t), v + t); s.push("sub:" + s.Y(t), v)
     elif c == "xorxor":
         s.push("xor:" + s.Y(t), v ^ t); s.push("xor:" + s.Y(t), v)
@@ -413,12 +483,15 @@ def pair(rng, lens):
         detour(rng, b)
     if rng.random() < 0.3:
         detour(rng, a)
+    STATS["pair_same" if a.v == b.v else "pair_diff"] += 1
     if rng.random() < 0.5:
         a, b = b, a
     return "hist.pair %s %s h:%s %s h:%s" % (kind, a.ctor, ";".join(a.ops), b.ctor, ";".join(b.ops))
 
 
 def generate(rng, tier):
+    for k in STATS:
+        STATS[k] = 0
     lens = LENS_T if tier == "thorough" else LENS
     n = 15000 if tier == "thorough" else 1100
     npairs = 5000 if tier == "thorough" else 400
@@ -427,10 +500,37 @@ def generate(rng, tier):
         for _ in range(3):
             cases += scripted(rng, kind, lens)
     for i in range(n):
-        cases.append(history(rng, "u" if i % 2 == 0 else "i", lens).line())
+        h = history(rng, "u" if i % 2 == 0 else "i", lens)
+        STATS["panic"] += 1 if h.dead else 0
+        cases.append(h.line())
     for _ in range(npairs):
         cases.append(pair(rng, lens))
     return cases
+
+
+def extra_checks(ctx):
+    """input distribution of exactly the cases the run evaluates (same PRNG construction as check)"""
+    import random, collections
+    rng = random.Random(ctx["seed"] * 1000003 + 4)
+    cases = generate(rng, ctx["tier"])
+    ops, ctors, lens = collections.Counter(), collections.Counter(), collections.Counter()
+    grow_shrink = lost = 0
+    for c in cases:
+        t = c.split(" ")
+        scripts = [(t[1], t[2])] if t[0] != "hist.pair" else [(t[2], t[3]), (t[4], t[5])]
+        for ct, h in scripts:
+            ctors[t[0][5:] + ":" + ct.split(":")[0]] += 1
+            names = [o.split(":")[0] for o in h[2:].split(";") if o]
+            ops.update(names)
+            n = len(names)
+            lens["0" if n == 0 else "1-5" if n <= 5 else "6-15" if n <= 15 else "16-40"] += 1
+            if "shl" in names and ("shr" in names or "zero" in names or "clone" in names or "rem" in names):
+                grow_shrink += 1
+    return {"coverage": {"hist_ops": dict(sorted(ops.items())), "hist_ctors": dict(sorted(ctors.items())),
+                         "hist_lengths": dict(lens), "histories_growing_and_shrinking": grow_shrink,
+                         "pairs_same_value": STATS["pair_same"], "pairs_different_value": STATS["pair_diff"],
+                         "histories_ending_in_panic": STATS["panic"]},
+            "broken": [], "violations": []}
 
 
 def nontrivial(case):
@@ -478,11 +578,11 @@ def _obj(tok):
     return "(OI (mkint %s %s))" % (_SG[s], _hl(d))
 
 
-_BIG = {"add": "OAdd", "sub": "OSub", "div": "ODiv", "rem": "ORem", "and": "OAnd", "or": "OOr", "xor": "OXor",
+_BIG = {"mul": "OMul", "gcd": "OGcd", "lcm": "OLcm", "add": "OAdd", "sub": "OSub", "div": "ODiv", "rem": "ORem", "and": "OAnd", "or": "OOr", "xor": "OXor",
         "clone": "OCloneFrom", "divfloor": "ODivFloor", "modfloor": "OModFloor", "diveuclid": "ODivEuclid",
         "remeuclid": "ORemEuclid", "divceil": "ODivCeil"}
-_SC = {"adds": "OAddS", "subs": "OSubS", "divs": "ODivS", "rems": "ORemS"}
-_NUL = {"zero": "OSetZero", "one": "OSetOne", "neg": "ONeg", "not": "ONot", "abs": "OAbs", "signum": "OSignum"}
+_SC = {"muls": "OMulS", "adds": "OAddS", "subs": "OSubS", "divs": "ODivS", "rems": "ORemS"}
+_NUL = {"sqrt": "OSqrt", "cbrt": "OCbrt", "zero": "OSetZero", "one": "OSetOne", "neg": "ONeg", "not": "ONot", "abs": "OAbs", "signum": "OSignum"}
 
 
 def _op(tok):
@@ -494,8 +594,8 @@ def _op(tok):
         return "%s S%s (%s)" % (_SC[name], w, v)
     if name in _NUL:
         return _NUL[name]
-    if name in ("shl", "shr"):
-        return "%s (%s)" % ({"shl": "OShl", "shr": "OShr"}[name], rest)
+    if name in ("shl", "shr", "pow", "nthroot"):
+        return "%s (%s)" % ({"shl": "OShl", "shr": "OShr", "pow": "OPow", "nthroot": "ONthRoot"}[name], rest)
     if name == "setbit":
         i, b = rest.split(":")
         return "OSetBit (%s) %s" % (i, "true" if b == "1" else "false")
@@ -513,6 +613,6 @@ def coq_term(case, model_result):
         return None
     kind = toks[0][-1]
     ops = [t for t in toks[2][2:].split(";") if t]
-    lhs = "history_trace (mkHP addsub div bits) (%s) [%s]" % (_ctor(kind, toks[1]), "; ".join(_op(o) for o in ops))
+    lhs = "history_trace (mkHP addsub div bits mul pgr_pow pgr_gcd pgr_roots radix) (%s) [%s]" % (_ctor(kind, toks[1]), "; ".join(_op(o) for o in ops))
     rhs = "[" + "; ".join("Ret %s" % _obj(t) for t in model_result.split(" ")[1:]) + "]"
     return lhs, rhs
